@@ -53,6 +53,7 @@ type BoundContract struct {
 	LoopMod     map[int][]ast.Expr
 	LoopSplit   map[int][]ast.Expr
 	Appends     [][2]ast.Expr
+	AppendsAll  [][2]ast.Expr
 	Copies      [][3]ast.Expr
 	CallsOnly   []string
 	Split       []ast.Expr
@@ -754,6 +755,31 @@ func (env *specEnv) callExpr(x *ast.CallExpr) Val {
 		case "held":
 			a := env.identity(x.Args[0])
 			return u.readCell(env.st, "bool", c.Fld(a, fGhostHeld))
+		case "isFresh":
+			// the object was allocated during this call (decided syntactically on the address term)
+			var a *Term
+			switch v := env.eval(x.Args[0]).(type) {
+			case *IfaceV:
+				a = v.Ptr
+			case *Term:
+				a = v
+			default:
+				return c.False
+			}
+			var fresh func(t *Term) *Term
+			fresh = func(t *Term) *Term {
+				if t.Op == OpIte {
+					return c.Ite(t.Args[0], fresh(t.Args[1]), fresh(t.Args[2]))
+				}
+				if r, k := addrRoot(t); k == 1 && r.K > 0 {
+					return c.True
+				}
+				return c.False
+			}
+			return fresh(a)
+		case "sameSeq":
+			a, b := env.eval(x.Args[0]).(*SliceV), env.eval(x.Args[1]).(*SliceV)
+			return c.And(c.Eq(a.Base, b.Base), c.Eq(a.Off, b.Off), c.Eq(a.Len, b.Len))
 		case "sameSlice":
 			a, b := env.eval(x.Args[0]).(*SliceV), env.eval(x.Args[1]).(*SliceV)
 			return c.And(c.Eq(a.Base, b.Base), c.Eq(a.Off, b.Off), c.Eq(a.Len, b.Len))
@@ -770,10 +796,7 @@ func (env *specEnv) callExpr(x *ast.CallExpr) Val {
 		case "typeIs":
 			iv := env.eval(x.Args[0]).(*IfaceV)
 			tn := constant.StringVal(info.Types[x.Args[1]].Value)
-			id, ok := u.E.typeIDs[tn]
-			if !ok {
-				id = u.E.typeIDByName(tn)
-			}
+			id := env.resolveTypeName(tn)
 			return c.Eq(iv.Tag, c.BVu(uint64(id), 32))
 		}
 	}
@@ -986,4 +1009,42 @@ func (env *specEnv) ghostField(e ast.Expr) int {
 		env.u.E.ghostNames[name] = id
 	}
 	return id
+}
+
+// resolveTypeName resolves "*pkg.Type" / "pkg.Type" / "Type" against the imports of the contract's package.
+func (env *specEnv) resolveTypeName(name string) int {
+	ptr := strings.HasPrefix(name, "*")
+	n := strings.TrimPrefix(name, "*")
+	var tp *types.Package
+	tn := n
+	if i := strings.Index(n, "."); i >= 0 {
+		q := n[:i]
+		tn = n[i+1:]
+		for _, ip := range env.bc.Pkg.Imports {
+			if ip.Name == q {
+				tp = ip.Types
+			}
+		}
+		if tp == nil {
+			for _, ip := range env.u.E.AllPkgs {
+				if ip.Name == q {
+					tp = ip.Types
+				}
+			}
+		}
+	} else {
+		tp = env.bc.Pkg.Types
+	}
+	if tp == nil {
+		panic("typeIs: unknown package in " + name)
+	}
+	o := tp.Scope().Lookup(tn)
+	if o == nil {
+		panic("typeIs: unknown type " + name)
+	}
+	var t types.Type = o.Type()
+	if ptr {
+		t = types.NewPointer(t)
+	}
+	return env.u.E.typeID(t)
 }
